@@ -72,12 +72,15 @@ def run(tier, replay=None):
         libs += [("verif_cube", 4, bases.USER_STYLE["verif_cube"])]
         libs += [("verif_sq", 5, [["x", "a"], ["square"], ["+"]])]       # smallest library with a sum of two even powers of different parameters
         libs += [("verif_mulpow", 7, [["x", "a"], [], ["*", "pow"]])]    # smallest library with three-parameter functions in which a middle parameter is absorbed
+        libs += [("verif_mulsub", 7, [["x", "a"], [], ["*", "-"]])]      # smallest library whose rewriting phase needs two rounds with a substitution recorded in the first
+        libs += [("verif_invlog", 5, [["x", "a"], ["inv", "log_abs"], ["+", "-", "*"]])]   # rewritten trees with log of a negative power under '-' (cheaper than base_e_maths n=5)
     else:
         libs = [(k, n, None) for k in bases.SHIPPED for n in (1, 2, 3, 4)]
         libs += [("core_maths", 5, None), ("core_maths", 6, None), ("ext_maths", 5, None), ("base_e_maths", 5, None), ("osc_maths", 5, None)]
         libs += [("verif_sub%d" % k, n, subs[k]) for k in rng.sample(range(len(subs)), 16) for n in (4, 5)]
         libs += [(k, n, b) for k, b in user for n in (3, 4)]
-        libs += [("verif_sq", 5, [["x", "a"], ["square"], ["+"]]), ("verif_mulpow", 7, [["x", "a"], [], ["*", "pow"]]), ("verif_addmul", 7, [["x", "a"], [], ["+", "*"]])]
+        libs += [("verif_sq", 5, [["x", "a"], ["square"], ["+"]]), ("verif_mulpow", 7, [["x", "a"], [], ["*", "pow"]]), ("verif_addmul", 7, [["x", "a"], [], ["+", "*"]]), ("verif_mulsub", 7, [["x", "a"], [], ["*", "-"]]),
+                 ("verif_invlog", 5, [["x", "a"], ["inv", "log_abs"], ["+", "-", "*"]])]
     tested = False
     for name, n, basis in libs:
         L, _ = common.gen_library(r, s, name, n, basis=basis)
